@@ -518,3 +518,75 @@ class ContainerPropertyRoundTrip(_ElementValueRoundTrip):
     writer = 'mk_node'
     doc = ('ContainerProperty (container valued members, e.g. the state inside a report part): same obligations as '
            'C05.sub_element_roundtrip; an existing child of the property is removed before the value is written')
+
+
+@register
+class SubElementListRead(FnCheck):
+    id = 'C05.sub_element_list_read'
+    prop = 'C05'
+    opaque_ok = True
+    target = f'{XS}:SubElementListProperty.get_py_value_from_node'
+    doc = ('SubElementListProperty.get_py_value_from_node (the reader of every unbounded list of data-type elements, e.g. '
+           'pm:Identification): the result has one entry per child element, in document order, and the j-th entry is read '
+           'from the j-th element with the class that element ITSELF selects (value_class_from_node: its xsi:type) - '
+           'lists that mix derived types come back with the classes they were written with')
+
+    def setup(self, b):
+        st = b.st
+        self.nodes = z3.Const('child_nodes', SeqVal)
+        j = z3.Int('j!cn')
+        st.assume(z3.ForAll([j], z3.Implies(z3.And(0 <= j, j < z3.Length(self.nodes)), z3.And(
+            Val.is_ref(self.nodes[j]), Val.oid(self.nodes[j]) > 0, Val.oid(self.nodes[j]) < 10 ** 9))))
+        self.cls_of = z3.Function('value_class_from_node', Val, Val)
+        self.from_node = z3.Function('from_node', Val, Val, Val)
+        v = z3.Const('v!cls', Val)
+        st.assume(z3.ForAll([v], Val.is_ref(self.cls_of(v)), patterns=[self.cls_of(v)]))      # a class object
+        self.o = b.obj('self', cls=(XS, 'SubElementListProperty'), _sub_element_name=b.any('sub_element_name'),
+                       value_class=b.obj('declared_value_class'))
+        return self.o, [b.obj('instance'), b.obj('node')], {}
+
+    def callees(self, ex):
+        def findall(ex_, st, args, kwargs):
+            r = st.alloc('list')
+            st.set_list_seq(r, self.nodes)
+            return r
+
+        def cls_from(ex_, st, args, kwargs):
+            return vany(self.cls_of(st.box(args[0])))
+
+        def from_node(ex_, st, args, kwargs):
+            return vany(self.from_node(st.ghost['c:recv'], st.box(args[0])))
+        return {'*.findall': Pure(findall, name='node.findall(name) -> the child elements in document order'),
+                '*.value_class_from_node': Pure(cls_from, name='value_class_from_node(node) (uninterpreted: class selected by the node)'),
+                '*.from_node': Pure(from_node, name='<class>.from_node(node) (uninterpreted function of class and node)')}
+
+    def hooks(self, ex):
+        class H:
+            tracked_names = ()
+
+            def on_call(self, ex_, st, fv, keys, args, kwargs, node):
+                if fv.t == 'method':
+                    st.ghost['c:recv'] = st.box(fv.recv)
+                return None
+        return H()
+
+    def _ok(self, seq, k):
+        j = z3.Int('j!ob')
+        return z3.And(z3.Length(seq) == k, z3.ForAll([j], z3.Implies(z3.And(0 <= j, j < k),
+                      seq[j] == self.from_node(self.cls_of(self.nodes[j]), self.nodes[j]))))
+
+    def loops(self, ex):
+        def inv(ex_, st, env):
+            lst = ex_.concrete_kind(st, st.locals['objects'], ('ref',))
+            if lst.kind != 'ref' or env['_seq'] is None:
+                return z3.BoolVal(False)
+            return z3.And(self._ok(st.list_seq(lst), env['_k']), env['_seq'] == self.nodes)
+        return {0: LoopSpec(inv=inv, havoc_heap=['L'])}
+
+    def post(self, ex, st0, st, outcome, b):
+        if outcome[0] == 'exc':
+            ex.oblige(st, 'never_raises', z3.BoolVal(False), info={'exc': repr(outcome[1])})
+            return
+        r = ex.concrete_kind(st, outcome[1], ('ref',))
+        ex.oblige(st, 'one_entry_per_element_read_with_the_class_of_that_element',
+                  self._ok(st.list_seq(r), z3.Length(self.nodes)) if r.kind == 'ref' else z3.BoolVal(False))
